@@ -21,7 +21,16 @@ PR_INDENT1 = (0, 1, 2, 3)
 # jbl_as_json ignores JBL_PRINT_PRETTY_INDENT2 / _INDENT4 (the tree printer honours them): a defect of the unmodified library
 # found by C14_print_agree_refuted (notes/jbinn.md, fixes/jbinn-print-indent.diff).  Measured and counted; judged as a violation
 # only with VERIF_C14_JUDGE_INDENT=1 (the deepening round had to exit 0 on the unchanged tree)
-JUDGE_INDENT = os.environ.get("VERIF_C14_JUDGE_INDENT") == "1"
+JUDGE_OPEN = os.environ.get("VERIF_C14_JUDGE_OPEN") == "1"
+JUDGE_INDENT = JUDGE_OPEN or os.environ.get("VERIF_C14_JUDGE_INDENT") == "1"
+# jbl_clone_into_pool copies the whole binn struct: the clone of a writable document stays writable and keeps the SOURCE's
+# write buffer (pbuf) - a write to the clone lands in the source, a write to the source shows up in the clone; a defect of the
+# unmodified library (notes/jbinn.md, fixes/jbinn-clone-into-pool-alias.diff).  The harness reports it as ALIAS and disarms
+# it; measured and counted, judged only with VERIF_C14_JUDGE_CLONEP=1 (or VERIF_C14_JUDGE_OPEN=1)
+JUDGE_CLONEP = JUDGE_OPEN or os.environ.get("VERIF_C14_JUDGE_CLONEP") == "1"
+IND_KINDS = ("S.node", "S.buf", "S.set", "S.setr", "S.json")
+KNOWN_FIX = {"jbl_as_json-ignores-indent": "jbinn-print-indent.diff", "jbl_clone_into_pool-shares-pbuf": "jbinn-clone-into-pool-alias.diff",
+             "jbn_get-borrowed-keys": "jbinn-get-borrowed-keys.diff"}
 
 
 # ------------------------------------------------------------------------------------------------ values and dumps
@@ -398,6 +407,17 @@ def gen_obj(rng, d, opts, n):
     return ("o", ms)
 
 
+def end_payloadless(rng, v):
+    """make containers end with null / true / false: the values AddValue writes without a payload"""
+    if isinstance(v, list) and v:
+        return [end_payloadless(rng, x) for x in v[:-1]] + [rng.choice([None, True, False]) if rng.chance(2, 3) else end_payloadless(rng, v[-1])]
+    if is_obj(v) and v[1]:
+        ms = [(k, end_payloadless(rng, x)) for k, x in v[1][:-1]]
+        k, x = v[1][-1]
+        return ("o", ms + [(k, rng.choice([None, True, False]) if rng.chance(2, 3) else end_payloadless(rng, x))])
+    return v
+
+
 def gen_doc(rng, opts):
     shape = rng.weighted([("rand", 10), ("wide", 1), ("deep", 1), ("ints", 1), ("sized", 2), ("empties", 1)])
     if shape == "wide":    # count field switches at 127/128
@@ -585,10 +605,10 @@ HEADER_API = {
     "jbn_clone": "P:T.clone T.cloneh T.clone0 C:cl", "jbn_apply_from": "P:T.apply",
     "jbl_from_node": "P:B.node B.via0 C:tb", "jbl_fill_from_node": "P:B.fill", "jbl_from_json": "P:B.json T.jback0",
     "jbl_from_json_printf": "P:B.jsonpf", "jbl_from_json_printf_va": "U:reached through jbl_from_json_printf",
-    "jbl_clone": "P:B.clone C:bcl", "jbl_clone_into_pool": "P:B.clonep C:bclp", "jbl_from_buf_keep": "P:B.buf T.back0x",
+    "jbl_clone": "P:B.clone C:bcl indc", "jbl_clone_into_pool": "P:B.clonep C:bclp indp", "jbl_from_buf_keep": "P:B.buf T.back0x",
     "jbl_from_buf_keep_onstack": "P:B.stack", "jbl_structure_size": "U:B.stack", "jbl_object_copy_to": "P:B.copyto",
     "jbl_create_empty_object": "P:B.set B.fill B.copyto", "jbl_create_empty_array": "P:B.set B.fill",
-    "jbl_set_int64": "P:B.set", "jbl_set_f64": "P:B.set", "jbl_set_string": "P:B.set", "jbl_set_string_printf": "P:B.set",
+    "jbl_set_int64": "P:B.set B.setr (a read after every call) C:indc indp (the change made after cloning)", "jbl_set_f64": "P:B.set", "jbl_set_string": "P:B.set", "jbl_set_string_printf": "P:B.set",
     "jbl_set_bool": "P:B.set", "jbl_set_null": "P:B.set", "jbl_set_empty_array": "P:B.set", "jbl_set_empty_object": "P:B.set",
     "jbl_set_nested": "P:B.set B.copyto",
     "jbl_at": "C:bat", "jbl_at2": "C:bat2 P:B.root", "jbn_at": "C:at", "jbn_at2": "C:at2", "jbn_get": "C:get",
@@ -679,7 +699,7 @@ def expected_producers(doc, has_text):
     t += ["T.back1", "T.back0", "T.back0h"] + ([] if nul else ["T.back1h"]) + ["T.back0x"] + (["T.jback0"] if has_text else [])
     t += ["T.clone"] + ([] if nul else ["T.cloneh"]) + ["T.clone0", "T.handx", "T.apply"]
     b = ["B.node", "B.fill"] + (["B.json", "B.jsonpf"] if has_text else []) + ["B.clone", "B.clonep", "B.buf", "B.stack"]
-    b += (["B.copyto"] if is_obj(doc) else []) + ([] if nul else ["B.set"]) + ["B.via0", "B.root"]
+    b += (["B.copyto"] if is_obj(doc) else []) + ([] if nul else ["B.set", "B.setr"]) + ["B.via0", "B.root"]
     return t, b
 
 
@@ -753,6 +773,42 @@ def judge_lookup(what, exp, ans):
     return None
 
 
+def with_member(doc, key, val):
+    """the document after jbl_set_int64(doc, key, val) succeeded (objects: new member; arrays: appended)"""
+    if is_obj(doc):
+        return ("o", list(doc[1]) + [(key, val)])
+    return list(doc) + [val]
+
+
+def judge_independence(doc, ans, fname):
+    """[ALIAS:]<rc src change>:<rc clone change>:<clone after the source changed>,<source after the clone changed>,<clone after its
+    own change>  - see ind_cells of harness/h_jbinn.c"""
+    if ans.startswith("ERR"):
+        return "%s failed (%s)" % (fname, ans)
+    alias = ans.startswith("ALIAS:")
+    if alias:
+        ans = ans[6:]
+        KNOWN_HITS["jbl_clone_into_pool-shares-pbuf"] = KNOWN_HITS.get("jbl_clone_into_pool-shares-pbuf", 0) + 1
+        if fname != "jbl_clone_into_pool" or JUDGE_CLONEP:
+            return ("the clone made by %s is writable and writes into the buffer of its source: changing one document changes "
+                    "the other (the harness disarmed it to go on)" % fname)
+    try:
+        r1, r2, rest = ans.split(":", 2)
+        d1, s1, d2 = rest.split(",")
+        d1, s1, d2 = parse_dump(d1), parse_dump(s1), parse_dump(d2)
+    except (ValueError, BadDump):
+        return "unreadable answer"
+    if not veq(doc, d1):
+        return "after the SOURCE was changed the clone made by %s is no longer the document" % fname
+    want_src = with_member(doc, b"\x01s", 77) if r1 == "0" else doc
+    if not veq(want_src, s1):
+        return "after the clone made by %s was changed the SOURCE is no longer what it was" % fname
+    want_cl = with_member(doc, b"\x01c", 88) if r2 == "0" else doc
+    if not veq(want_cl, d2):
+        return "the clone made by %s does not hold what was stored into it" % fname
+    return None
+
+
 def mx_oracle(q, out):
     """producer x consumer matrix: the same RFC 6901 / value-equality answer is due in every cell"""
     bad = []
@@ -818,6 +874,15 @@ def mx_oracle(q, out):
         for ans, ps, what in each("cnt"):
             if ans != "%d:%d" % (6 if is_obj(doc) else 7, n):
                 bad.append("%s: expected type:count %d:%d, got %s" % (what, 6 if is_obj(doc) else 7, n, ans))
+        # cloning yields an INDEPENDENT document: the source is changed after cloning, then the clone is (both directions)
+        nul = any(0 in x for x in strings_of(doc))
+        kinds = [k for k in IND_KINDS if not (k in ("S.set", "S.setr") and nul) and not (k == "S.json" and text is None)]
+        for c, fname in (("indc", "jbl_clone"), ("indp", "jbl_clone_into_pool")):
+            need(c, kinds)
+            for ans, ps, what in each(c):
+                why = judge_independence(doc, ans, fname)
+                if why:
+                    bad.append("%s: %s | answer %s" % (what, why, ans[:200]))
         return bad
     # ---- mx
     toks = rfc_parse(path)
@@ -956,6 +1021,8 @@ def oracle(query, out):
                     bad.append("jbn_clone is not equal to its source: %s" % f["ncl"][:200])
                 if f.get("nindep") == "0":
                     bad.append("jbn_clone shares storage with its source (changing the source changed the clone)")
+                if f.get("nindep2") == "0":
+                    bad.append("jbn_clone shares storage with its source (changing the clone changed the source)")
             if not (is_obj(src) or isinstance(src, list)):
                 return bad      # scalars have no binary document form (jbl_from_node/jbl_from_json refuse them)
             if f.get("rc") != "0":
@@ -1058,6 +1125,9 @@ def build_queries(run, mult):
         kind = rng.weighted([("plain", 12), ("badkeys", 2), ("nul", 1), ("scalar", 1)])
         opts = {"maxdepth": rng.choice([1, 2, 3, 4]), "bad_keys": kind == "badkeys", "nul": kind == "nul"}
         doc = gen_value(rng, 9, opts) if kind == "scalar" else gen_doc(rng, opts)
+        if kind == "plain" and rng.chance(1, 3):
+            doc = end_payloadless(rng, doc)
+            run.dist("doc-ends-payloadless")
         d = dump(doc)
         lines.append("conv " + d)
         run.dist("conv-" + kind)
@@ -1281,9 +1351,9 @@ def check(run):
             run.notes.append("matrix cells not exercised in this run: " + ", ".join(empty[:20]))
     for k, n in KNOWN_HITS.items():
         run.dist("known-defect " + k, n)
+        judged = (k.startswith("jbl_as_json") and JUDGE_INDENT) or (k.startswith("jbl_clone_into_pool") and JUDGE_CLONEP)
         run.notes.append("known defect of the unmodified library, measured in %d answers and %s: %s (notes/jbinn.md, fixes/%s)" % (
-            n, "judged" if (k.startswith("jbl_as_json") and JUDGE_INDENT) else "not judged", k,
-            "jbinn-print-indent.diff" if k.startswith("jbl_as_json") else "jbinn-get-borrowed-keys.diff"))
+            n, "judged" if judged else "not judged", k, KNOWN_FIX.get(k, "?")))
     if mism:
         i, d = mism[0]
         fi, fm = fields(out_i[i] if i < len(out_i) else ""), fields(out_m[i] if i < len(out_m) else "")
